@@ -11,7 +11,7 @@ fi
 python3 - "$N" "$H" <<'PY'
 import glob, re, sys
 n, h = sys.argv[1], sys.argv[2]
-pat = re.compile(r"(PENDING\(fixes/%s\.diff\)|<pending: fixes/%s\.diff>|PENDING\(%s\)|<pending:? ?%s>|<commit:%s>)" % ((re.escape(n),) * 5))
+pat = re.compile(r"(?i)(PENDING\(fixes/%s\.diff\)|<pending: fixes/%s\.diff>|PENDING\(%s\)|<pending:? ?%s>|<commit:%s>)" % ((re.escape(n),) * 5))
 hit = 0
 for p in glob.glob("findings/*.json"):
     s = open(p).read()
